@@ -160,9 +160,16 @@ def extract(repo: Path) -> dict:
     d["ok"] = _one(ok_msgs, "_apply_pack unpack ok message")
     d["atomic_failed"] = _one(atomic_msgs, "_apply_pack atomic failure message")
     # `ref_status = b"ok"` initialisations and the `status == b"ok"` test must use the same literal
-    inits = [_bytes_const(n.value) for n in ast.walk(ap) if isinstance(n, ast.Assign) and isinstance(n.targets[0], ast.Name)
-             and n.targets[0].id == "ref_status" and isinstance(n.value, ast.Constant)
-             and not any(n in h.body for h in ast.walk(ap) if isinstance(h, ast.ExceptHandler))]
+    # the first statement of each `for oldsha, sha, ref in refs:` body
+    inits = []
+    for n in ast.walk(ap):
+        if isinstance(n, ast.For) and ast.unparse(n.target) == "(oldsha, sha, ref)":
+            st0 = n.body[0]
+            if not (isinstance(st0, ast.Assign) and isinstance(st0.targets[0], ast.Name) and st0.targets[0].id == "ref_status"):
+                raise T.TranslateError("_apply_pack: a ref loop does not start with `ref_status = ...`")
+            inits.append(_bytes_const(st0.value))
+    if len(inits) != 3:
+        raise T.TranslateError(f"_apply_pack: expected three loops over the commands, found {len(inits)}")
     if _one(inits, "_apply_pack ref_status initial value") != d["ok"]:
         raise T.TranslateError("_apply_pack: ref_status is not initialised to the unpack ok literal")
     # try/except structure around the CAS calls
@@ -841,8 +848,10 @@ def oracle_wire(ctx, stream, case, pre_refs, pre_store, obs, post_refs, post_mis
     for n, v in sorted(post_missing.items()):
         cls = None
         hits = [c for c in cmds if c[2] == n and c[1] == v]
-        if hits and v not in pre_store and v not in sent:
+        if hits and v not in pre_store and v not in sent and obs["unpack_exc"] is None:
             cls = "wire-new-object-missing"
+        elif hits and obs["unpack_exc"] is not None:
+            cls = "wire-ref-updated-after-failed-unpack"
         ctx.oracle_fail(stream, brief, f"after the push {n!r} names {v!r}, which the server's object store does not have", cls)
     if len(set(names)) != len(names):
         return   # several commands for one ref: only the correspondence and the store clause apply
@@ -1215,6 +1224,8 @@ def oracle_local(ctx, stream, case, obs, post_refs, post_missing, prefix="local"
     raced = bool(case.get("racer"))
     sent = {o.id for i in case.get("pack", []) for o in pool()[i]}
     for n, v in sorted(post_missing.items()):
+        if prefix == "gitsrv":
+            break      # the server is C git: only what the dulwich client reports is under test there
         cls = None
         if any(c[0] == n and c[1] == v for c in cmds) and v not in obs["cur_store"] and v not in sent:
             cls = prefix + "-new-object-missing"
@@ -1251,7 +1262,7 @@ def oracle_local(ctx, stream, case, obs, post_refs, post_missing, prefix="local"
             if post == target and not rep_ok:
                 ctx.oracle_fail(stream, brief, f"{name!r}: the ref holds the requested {target!r} but the status is {rs.get(name)!r}",
                                 prefix + "-applied-but-not-reported")
-    if case.get("atomic") and not all_hold and not untouched:
+    if case.get("atomic") and not all_hold and not untouched and prefix != "gitsrv":
         if prefix == "local":
             ctx.oracle_fail(stream, brief, "atomic local push applied some updates and not others",
                             "local-atomic-partial-apply-race" if raced else "local-atomic-partial-apply")
@@ -1537,7 +1548,7 @@ def _stream_git_push(ctx, sd, n):
             if r < 0.25 and cur:
                 specs.append(f":{name}")
                 want[name] = None
-            elif r < 0.35 and has_df:
+            elif r < 0.35 and has_df and DF_CHILD.decode() not in want:
                 specs.append(f"+{cid(5).decode()}:{DF_CHILD.decode()}")
                 want[DF_CHILD.decode()] = cid(5).decode()
             else:
@@ -1715,6 +1726,8 @@ def run(ctx: core.Ctx):
     _stream_parser(ctx, ctx.budget(1500))
     _stream_e2e(ctx, sd, ctx.budget(40), ctx.budget(8, mult=6))
     _stream_git_push(ctx, sd, ctx.budget(5, mult=8))
+    ctx.notes.append("e2e.git-server checks only what the dulwich client reports against the refs C git's receive-pack left behind; "
+                     "git 2.39.5 itself applies an --atomic push partially when one command is refused for missing objects (observed)")
     ctx.extra_cov["third_party"] = {"git_server_pushes": ctx.streams.get("e2e.git-server", 0), "git_client_pushes": ctx.streams.get("e2e.git-push", 0)}
 
 
